@@ -335,9 +335,29 @@ func (e *Engine) inline(st *state, fr *frame, in ssa.CallInstruction, fn *ssa.Fu
 	sub.events = nil
 	base := len(st.conds)
 	nf := &frame{fn: fn, env: map[ssa.Value]*Val{}, args: args, free: free, depth: fr.depth + 1,
-		site: &CallSite{Instr: in, Callee: fn, Parent: fr.site}}
+		site: &CallSite{Instr: in, Callee: fn, Parent: fr.site}, tsub: fr.tsub}
+	if o := fn.Origin(); o != nil && o != fn && len(fn.TypeArgs()) > 0 && o.TypeParams().Len() == len(fn.TypeArgs()) {
+		// an instantiation (wrapper) of a generic function: inside the origin's body its type parameters stand for
+		// these type arguments – which may themselves be type parameters of the generic caller
+		m := map[*types.TypeParam]types.Type{}
+		for k, v := range fr.tsub {
+			m[k] = v
+		}
+		for i, ta := range fn.TypeArgs() {
+			m[o.TypeParams().At(i)] = fr.substT(ta)
+		}
+		nf.tsub = m
+	}
 	startID := e.nextID
 	outs := e.execFrom(sub, nf, fn.Blocks[0], nil, 0)
+	if len(nf.tsub) > 0 {
+		// values handed back to a generic caller are typed in the caller's terms
+		for _, o := range outs {
+			for i, r := range o.ret {
+				o.ret[i] = substVal(r, nf)
+			}
+		}
+	}
 
 	type group struct {
 		sig  string
@@ -1202,6 +1222,42 @@ func mergePureForks(pre *state, outs []*outcome, startID int) []*outcome {
 		merged = append(merged, &o0)
 	}
 	return append(merged, rest...)
+}
+
+// substVal rewrites the types of a value (and of the terms it is built from) that mention a callee's type parameter
+// into the type argument it stands for.
+func substVal(v *Val, f *frame) *Val {
+	if v == nil {
+		return nil
+	}
+	changed := false
+	nt := v.Type
+	if v.Type != nil {
+		if t2 := f.substT(v.Type); t2 != v.Type {
+			nt, changed = t2, true
+		}
+	}
+	var args []*Val
+	for i, a := range v.Args {
+		a2 := substVal(a, f)
+		if a2 != a {
+			if args == nil {
+				args = append([]*Val(nil), v.Args...)
+			}
+			args[i] = a2
+			changed = true
+		}
+	}
+	if !changed {
+		return v
+	}
+	c := *v
+	c.Type = nt
+	if args != nil {
+		c.Args = args
+	}
+	c.key = ""
+	return &c
 }
 
 // choiceFork: where one alternative of a choice value comes from.
